@@ -68,6 +68,8 @@ fn run(args: &[String]) {
             "--max-secs" => ctx.max_secs = val().parse().unwrap_or(0.0),
             "--leg" => ctx.leg = val(),
             "--out" => ctx.out = val(),
+            "--emit" => ctx.emit = Some(val()),
+            "--inputs" => ctx.inputs = Some(val()),
             "--repo" => ctx.repo = val(),
             "--index" => ctx.only = val().parse().ok(),
             "--literal-hex" => ctx.literal = Some(util::unhex(&val())),
